@@ -116,18 +116,30 @@ def build_motifs(inp):
     import torch
     names = motif_names(inp)
     if inp.get('meme'):
+        lay = inp['meme'] if isinstance(inp['meme'], dict) else {}
+        compact = lay.get('compact', False)          # no blank line / URL line between motifs
         os.makedirs(TMP, exist_ok=True)
         _counter[0] += 1
         path = os.path.join(TMP, 'm%d_%d.meme' % (os.getpid(), _counter[0]))
+        out = ['MEME version 4', '', 'ALPHABET= ACGT', '', 'strands: + -', '',
+               'Background letter frequencies', 'A 0.25 C 0.25 G 0.25 T 0.25', '']
+        if compact:
+            out = ['MEME version 4', 'ALPHABET= ACGT']
+        for nm, m in zip(names, inp['motifs']):
+            w = len(m[0])
+            out.append('MOTIF %s' % nm)
+            out.append('letter-probability matrix: alength= 4 w= %d nsites= 20 E= 0' % w)
+            for j in range(w):
+                out.append(' '.join('%.6f' % m[a][j] for a in range(4)))
+            if not compact:
+                if lay.get('url'):
+                    out.append('URL http://example.org/%s' % nm)
+                out.append('')
+        while out and out[-1] == '':
+            out.pop()
+        txt = '\n'.join(out) + ('\n' if lay.get('final_nl', True) else '')
         with open(path, 'w') as f:
-            f.write('MEME version 4\n\nALPHABET= ACGT\n\nstrands: + -\n\n'
-                    'Background letter frequencies\nA 0.25 C 0.25 G 0.25 T 0.25\n\n')
-            for nm, m in zip(names, inp['motifs']):
-                w = len(m[0])
-                f.write('MOTIF %s\nletter-probability matrix: alength= 4 w= %d nsites= 20 E= 0\n' % (nm, w))
-                for j in range(w):
-                    f.write(' '.join('%.6f' % m[a][j] for a in range(4)) + '\n')
-                f.write('\n')
+            f.write(txt)
         return path, names, [path]
     tdt = torch.float32 if inp['dtype'] == 'f32' else torch.float64
     d = {}
@@ -476,7 +488,7 @@ def base_case(rng, quick=True):
         w = rng.choice([2, 3, 4, 5, 6, 8, 10, 12, 15, 20])
         motifs.append(rand_pwm(rng, w, rng.choice([0.05, 0.1, 0.2, 0.5, 1.0])))
     return {'kind': 'random', 'motifs': motifs, 'dtype': 'f32' if rng.random() < 0.8 else 'f64',
-            'bin': rng.choice([0.1, 0.1, 0.1, 0.05, 0.2, 0.5, 1.0]),
+            'bin': rng.choice([0.1, 0.1, 0.1, 0.05, 0.2, 0.5, 1.0, 0.25, 0.125, 0.05]),
             'eps': rng.choice([1e-4, 1e-4, 1e-4, 1e-6, 1e-3, 1e-2, 0.1]),
             'thr': rng.choice([1e-1, 1e-2, 1e-3, 1e-4, 1e-4, 1e-5, 1e-6, 10 ** rng.uniform(-6, -1)]),
             'rc': rng.random() < 0.7, 'mode': rng.choice(['dim0', 'dim0', 'dim1', 'counts']),
@@ -676,8 +688,12 @@ def forms_case(rng, quick):
     elif pt < 0.4:
         c['ptype'] = 'int'
         c['bin'] = 1.0
-    if rng.random() < 0.2 and all(len(m[0]) <= 12 for m in c['motifs']):
-        c['meme'] = True
+    if rng.random() < 0.3 and all(len(m[0]) <= 12 for m in c['motifs']):
+        # MEME file: standard layout (blank line, optional URL line after each matrix) or compact
+        # (MOTIF line directly after the last row); with / without a final newline
+        c['meme'] = {'compact': rng.random() < 0.5, 'url': rng.random() < 0.3, 'final_nl': rng.random() < 0.5}
+        if len(c['motifs']) < 2:
+            c['motifs'] = c['motifs'] + [rand_pwm(rng, rng.choice([2, 3, 5]), 0.3)]
         c['motifs'] = [[[round(x, 6) for x in row] for row in m] for m in c['motifs']]
         c.pop('grad', None)
     if c['input'] == 'fasta':
@@ -709,6 +725,19 @@ def forms_case(rng, quick):
     return c
 
 
+def near_threshold_cases(rng, quick):
+    """many windows close to the score threshold, bin sizes that are not multiples of 0.1
+    (threshold = k * bin_size has 2-3 decimals)"""
+    for b in (0.25, 0.05, 0.01, 0.125):
+        for _ in range(2 if quick else 6):
+            motifs = [rand_pwm(rng, rng.choice([4, 5, 6]), rng.choice([0.3, 0.5, 1.0])) for _m in range(4)]
+            seqs = [rand_seq(rng, 120) for _s in range(8 if quick else 16)]
+            yield {'kind': 'near-thr', 'motifs': motifs, 'dtype': 'f32', 'bin': b, 'eps': 1e-4,
+                   'thr': rng.choice([1e-2, 1e-2, 3e-2, 1e-3]), 'rc': True,
+                   'mode': rng.choice(['dim0', 'dim0', 'counts']), 'threads': rng.choice([1, 4]),
+                   'input': 'tensor', 'seqs': seqs}
+
+
 def generate(tier, rng):
     quick = tier != 'thorough'
     n = 60 if quick else 400
@@ -720,6 +749,8 @@ def generate(tier, rng):
             # a motif set no earlier case has used: the first call that sees it is the pre-call
             yield multi_call(rng, with_seqs(rng, base_case(rng, quick), planted=(i % 2 == 1)))
     for v in n_run_cases(rng, quick):
+        yield v
+    for v in near_threshold_cases(rng, quick):
         yield v
     for _ in range(40 if quick else 250):
         yield forms_case(rng, quick)
